@@ -116,3 +116,19 @@ Definition nested_class_ok (c : tree_case) : bool :=
   expr_eqb (erase (rw k e)) (erase obs) && negb (nonnested e)
   && negb (expr_eqb (erase obs) (erase (rw_upd k e)))
   && differs_only_below expr_eqb e (erase obs) (erase (rw_upd k e)).
+
+(** transformer runs whose outcome may be "raised: file reported as failed and left untouched" (observed = None) *)
+Definition otree_case := (hkind * expr * option expr)%type.
+Definition otree_model_ok (c : otree_case) : bool :=
+  let '(k, e, obs) := c in
+  match obs with
+  | None => raises k e
+  | Some o => negb (raises k e) && expr_eqb (erase (rw k e)) (erase o)
+  end.
+(** an untouched file is allowed; a rewritten one must be the documented edit of every selected call and nothing else *)
+Definition otree_spec_ok (c : otree_case) : bool :=
+  let '(k, e, obs) := c in
+  match obs with
+  | None => true
+  | Some o => expr_eqb (erase (rw_spec k e)) (erase o)
+  end.
